@@ -15,9 +15,10 @@ Definition jval (j : jv) : jv := JC "Val" [j].
 (* the seven accessors fed by /proc/<pid>/stat, in this order:
    name ppid status cpu_times create_time cpu_num terminal *)
 Definition model_stat (masked : bool) (clk : positive) (bt : Z) (devs : list (bytes * option Z)) (data : bytes) : jv :=
-  JL [ jv_outcome jb (name data); jv_outcome jz (ppid data); jv_outcome jb (status data);
-       jv_outcome jqs (cpu_times clk data); jv_outcome jq (create_time clk bt data);
-       jv_outcome jz (cpu_num data); jv_outcome jterm (terminal masked devs data) ].
+  let f {A} (o : outcome A) := front data o in
+  JL [ jv_outcome jb (f (name data)); jv_outcome jz (f (ppid data)); jv_outcome jb (f (status data));
+       jv_outcome jqs (f (cpu_times clk data)); jv_outcome jq (f (create_time clk bt data));
+       jv_outcome jz (f (cpu_num data)); jv_outcome jterm (f (terminal masked devs data)) ].
 
 Definition dec_of (o : option bytes) : option Z :=
   match o with Some d => if is_dec d then Some (dec_val d) else None | None => None end.
